@@ -29,14 +29,22 @@ func (StatsReporter).Process returns (err)
   props C17 C08
   ensures err == nil
 
+// d is x truncated towards zero (Go's int(x))
+macro TruncOf(d int, x float64) bool := (x >= 0.0 ==> d <= x && x < d + 1) && (x < 0.0 ==> d - 1 < x && x <= d)
 func (StatsReporter).Flush returns (err)
-  props C17 C08 C07
+  props C17 C08 C07 C05
   requires @args sr.output != nil && sr.stats != nil
   modifies ghost(bufSticky, sinkFailed, sinkPend, prLen, prSink, prArg, prArgs)
   let B := prLen
   ensures @sink [C17] BufStep(sr.output)
   // the figures printed are those of the StatsData record: file names, record counts (C07)
   ensures @figures [C07] prLen == B + 8 && PrintedStr(B, 0, sr.stats.DbFileName) && PrintedInt(B + 1, 0, sr.stats.DbRecordsCount) && PrintedStr(B + 3, 0, sr.stats.LogFileName) && PrintedInt(B + 4, 0, sr.stats.LogRecordsCount)
+  // ... and the dates: "today" is the configured now, first / last are the record's dates, all in the reporter's
+  // layout; "days ago" is the whole number of 24-hour periods between the CONFIGURED now (--today, not the clock)
+  // and that date, truncated towards zero (C07, C05)
+  ensures @today [C07 C05] PrintedStr(B + 5, 0, FormatTime(sr.stats.Now, sr.dateFormat))
+  ensures @first-last [C07 C05] PrintedStr(B + 6, 0, FormatTime(sr.stats.LogFirstRecord, sr.dateFormat)) && PrintedStr(B + 7, 0, FormatTime(sr.stats.LogLastRecord, sr.dateFormat))
+  ensures @days-ago [C07 C05] typeis(prArgs[B + 6][1], "int") && TruncOf(cellat(int, payload(prArgs[B + 6][1])), HoursOf(SubT(sr.stats.Now, sr.stats.LogFirstRecord)) / 24.0) && typeis(prArgs[B + 7][1], "int") && TruncOf(cellat(int, payload(prArgs[B + 7][1])), HoursOf(SubT(sr.stats.Now, sr.stats.LogLastRecord)) / 24.0)
   ensures @reports-loss [C17] (err != nil) == bufSticky[sr.output] && (err == nil ==> sinkPend[bufSink[sr.output]] == 0)
 
 // stats: both files are read to their end with a stop-on-error callback, then the figures are printed
